@@ -1408,3 +1408,469 @@ func RRefDepth(c *core.Ctx) {
 		c.Anchor("addMatch calls that store a reference (-K - slot)")
 	}
 }
+
+// ---------------------------------------------------------------------------
+// R-FOLDSRC: Replace and Split fold the MATCH SEQUENCE (FindStringMatch, then
+// FindNextMatch): every match, empty ones next to a previous match included.
+// The find-all calls return that sequence minus the empty matches adjacent to
+// the preceding match, so nothing a fold is built on may obtain its matches
+// from them: `x*` splits "axb" into "", "a", "", "b", "" — through
+// FindAllStringIndex the third piece disappears.
+// ---------------------------------------------------------------------------
+
+func RFoldSrc(c *core.Ctx) {
+	c.Rule("R-FOLDSRC", "nothing reachable from Regexp.Split, Regexp.Replace or Regexp.ReplaceFunc (VTA call graph) calls the find-all driver findAllRunesIndex or an exported FindAll* method: those drop empty matches adjacent to the previous match, the folds must see every match of the sequence", 3)
+	p := c.P
+	var roots []*ssa.Function
+	for _, nm := range []string{"Regexp.Split", "Regexp.Replace", "Regexp.ReplaceFunc"} {
+		f := p.SSAFunc(p.LookupFunc("", nm))
+		if f == nil {
+			c.Anchor("regexp2." + nm)
+			return
+		}
+		roots = append(roots, f)
+	}
+	driver := p.SSAFunc(p.LookupFunc("", "Regexp.findAllRunesIndex"))
+	if driver == nil {
+		c.Anchor("regexp2.Regexp.findAllRunesIndex")
+		return
+	}
+	filtered := map[*ssa.Function]bool{driver: true}
+	for _, fn := range p.ModuleFuncs() {
+		if core.FnPkgPath(fn) == core.PkgRoot && fn.Signature.Recv() != nil && strings.HasPrefix(core.BaseName(fn), "FindAll") {
+			filtered[fn] = true
+		}
+	}
+	for _, r := range roots {
+		name := core.SSAName(r)
+		c.Visit(name)
+		reach := p.Reachable([]*ssa.Function{r})
+		var hit *ssa.Function
+		for f := range reach {
+			if filtered[f] && (hit == nil || core.SSAName(f) < core.SSAName(hit)) {
+				hit = f
+			}
+		}
+		if hit != nil {
+			c.Bad(name+" / folds the full match sequence, not a find-all result", r.Pos(), "%s is reachable from here: the find-all calls drop an empty match that touches the previous match, so pieces / replacements at those positions are lost", core.SSAName(hit))
+		} else {
+			c.OK(name+" / folds the full match sequence, not a find-all result", r.Pos(), "%d functions reachable, no find-all driver among them", len(reach))
+		}
+	}
+}
+
+// ---------------------------------------------------------------------------
+// R-SENTCONST: "no timeout" is the constant math.MaxInt64.  The flag that
+// switches the deadline machinery off for a scan (Runner.ignoreTimeout) is
+// computed by comparing the scan's timeout with a CONSTANT; a comparison with
+// a package-level variable (DefaultMatchTimeout is assignable by the program)
+// makes every Regexp whose timeout happens to equal the current default run
+// without a deadline.
+// ---------------------------------------------------------------------------
+
+func RSentConst(c *core.Ctx) {
+	c.Rule("R-SENTCONST", "every value stored into Runner.ignoreTimeout is a boolean constant or the comparison of a duration with a constant (the MaxInt64 'no timeout' sentinel); never a comparison with a package-level variable", 1)
+	p := c.P
+	f := p.LookupField("", "Runner", "ignoreTimeout")
+	if f == nil {
+		c.Anchor("Runner.ignoreTimeout")
+		return
+	}
+	n := 0
+	unconv := func(v ssa.Value) ssa.Value {
+		for {
+			switch x := v.(type) {
+			case *ssa.Convert:
+				v = x.X
+			case *ssa.ChangeType:
+				v = x.X
+			default:
+				return v
+			}
+		}
+	}
+	for _, fn := range p.ModuleFuncs() {
+		name := core.SSAName(fn)
+		for _, b := range fn.Blocks {
+			for _, ins := range b.Instrs {
+				st, ok := ins.(*ssa.Store)
+				if !ok || core.FieldVarOfAddr(st.Addr) != f {
+					continue
+				}
+				n++
+				c.Visit(name)
+				key := fmt.Sprintf("%s / store #%d to ignoreTimeout compares with a constant", name, n)
+				v := unconv(st.Val)
+				if _, isC := v.(*ssa.Const); isC {
+					c.OK(key, st.Pos(), "constant")
+					continue
+				}
+				bin, ok := v.(*ssa.BinOp)
+				if !ok || (bin.Op != token.EQL && bin.Op != token.NEQ) {
+					c.Bad(key, st.Pos(), "not a comparison: %s", v.String())
+					continue
+				}
+				_, xc := unconv(bin.X).(*ssa.Const)
+				_, yc := unconv(bin.Y).(*ssa.Const)
+				c.Check(xc || yc, key, st.Pos(), "`%s` compares the timeout with a value that is not a constant: the 'no timeout' sentinel is math.MaxInt64, whatever a package variable currently holds", bin.String())
+			}
+		}
+	}
+	if n == 0 {
+		c.Anchor("stores to Runner.ignoreTimeout")
+	}
+}
+
+// ---------------------------------------------------------------------------
+// R-CRAWLPAIR: what a forward clause records on the crawl stack, its
+// backtracking clause takes off again — the same number of entries under the
+// same operand conditions.  The forward clause of Capturemark records one
+// entry for a plain capture and one or two for a balancing group (always the
+// popped group, and the capturing group when there is one, operand(0) != -1);
+// the Back clause must call uncapture() exactly as often.  One too many pops
+// the crawl stack below its floor (index out of range) or undoes a capture of
+// an enclosing group.
+// ---------------------------------------------------------------------------
+
+type crawlEval struct {
+	info   *types.Info
+	p      *core.Program
+	crawl  *types.Func
+	uncap  *types.Func
+	opnd   *types.Func
+	env    map[string]bool         // atom "operand(k) != -1" -> value
+	bind   map[types.Object]string // parameter -> "operand(k)"
+	failed bool                    // could not be evaluated
+}
+
+// atomOf: e is `X != -1` / `X == -1` with X an operand(k) call or a parameter bound to one.
+func (ce *crawlEval) atomOf(e ast.Expr) (string, bool, bool) {
+	be, ok := ast.Unparen(e).(*ast.BinaryExpr)
+	if !ok || (be.Op != token.NEQ && be.Op != token.EQL) {
+		return "", false, false
+	}
+	if k, ok := core.ConstInt(ce.info, be.Y); !ok || k != -1 {
+		return "", false, false
+	}
+	name := ""
+	switch x := ast.Unparen(be.X).(type) {
+	case *ast.CallExpr:
+		if core.Callee(ce.info, x) == ce.opnd && len(x.Args) == 1 {
+			if k, ok := core.ConstInt(ce.info, x.Args[0]); ok {
+				name = fmt.Sprintf("operand(%d)", k)
+			}
+		}
+	case *ast.Ident:
+		name = ce.bind[ce.info.ObjectOf(x)]
+	}
+	if name == "" {
+		return "", false, false
+	}
+	return name, be.Op == token.NEQ, true
+}
+
+// condVal: three-valued evaluation under env (known bool, or unknown)
+func (ce *crawlEval) condVal(e ast.Expr) (val, known bool) {
+	e = ast.Unparen(e)
+	if name, pos, ok := ce.atomOf(e); ok {
+		v, has := ce.env[name]
+		if !has {
+			return false, false
+		}
+		return v == pos, true
+	}
+	switch x := e.(type) {
+	case *ast.UnaryExpr:
+		if x.Op == token.NOT {
+			v, k := ce.condVal(x.X)
+			return !v, k
+		}
+	case *ast.BinaryExpr:
+		if x.Op == token.LAND || x.Op == token.LOR {
+			a, ka := ce.condVal(x.X)
+			b, kb := ce.condVal(x.Y)
+			and := x.Op == token.LAND
+			switch {
+			case ka && a != and: // false && _ , true || _
+				return a, true
+			case kb && b != and:
+				return b, true
+			case ka && kb:
+				return b, true
+			}
+			return false, false
+		}
+	}
+	return false, false
+}
+
+// counts returns the set of (pushes - pops) over the paths of stmts that do not leave by break/return-without-effect.
+func (ce *crawlEval) counts(stmts []ast.Stmt, depth int) map[int]bool {
+	cur := map[int]bool{0: true}
+	add := func(set map[int]bool, d int) map[int]bool {
+		out := map[int]bool{}
+		for k := range set {
+			out[k+d] = true
+		}
+		return out
+	}
+	seq := func(a, b map[int]bool) map[int]bool {
+		out := map[int]bool{}
+		for x := range a {
+			for y := range b {
+				out[x+y] = true
+			}
+		}
+		return out
+	}
+	var exprDelta func(n ast.Node) map[int]bool
+	exprDelta = func(n ast.Node) map[int]bool {
+		res := map[int]bool{0: true}
+		ast.Inspect(n, func(x ast.Node) bool {
+			call, ok := x.(*ast.CallExpr)
+			if !ok {
+				return true
+			}
+			fn := core.Callee(ce.info, call)
+			switch {
+			case fn == nil:
+			case fn == ce.crawl:
+				res = add(res, 1)
+			case fn == ce.uncap:
+				res = add(res, -1)
+			case fn.Pkg() != nil && fn.Pkg().Path() == core.PkgRoot && depth < 3:
+				fd, _ := ce.p.DeclOf(fn)
+				if fd != nil && fd.Body != nil && mentionsCrawl(ce, fd, 0) {
+					// bind parameters that receive operand(k)
+					saved := ce.bind
+					nb := map[types.Object]string{}
+					i := 0
+					for _, f := range fd.Type.Params.List {
+						for _, id := range f.Names {
+							if i < len(call.Args) {
+								if c2, ok := ast.Unparen(call.Args[i]).(*ast.CallExpr); ok && core.Callee(ce.info, c2) == ce.opnd && len(c2.Args) == 1 {
+									if k, ok := core.ConstInt(ce.info, c2.Args[0]); ok {
+										nb[ce.info.ObjectOf(id)] = fmt.Sprintf("operand(%d)", k)
+									}
+								}
+							}
+							i++
+						}
+					}
+					ce.bind = nb
+					res = seq(res, ce.counts(fd.Body.List, depth+1))
+					ce.bind = saved
+				}
+			}
+			return true
+		})
+		return res
+	}
+	for _, st := range stmts {
+		if len(cur) == 0 {
+			break
+		}
+		switch x := st.(type) {
+		case *ast.IfStmt:
+			v, known := ce.condVal(x.Cond)
+			thenC := func() map[int]bool { return ce.counts(x.Body.List, depth) }
+			elseC := func() map[int]bool {
+				switch e := x.Else.(type) {
+				case *ast.BlockStmt:
+					return ce.counts(e.List, depth)
+				case *ast.IfStmt:
+					return ce.counts([]ast.Stmt{e}, depth)
+				}
+				return map[int]bool{0: true}
+			}
+			var br map[int]bool
+			switch {
+			case known && v:
+				br = thenC()
+			case known && !v:
+				br = elseC()
+			default:
+				br = map[int]bool{}
+				for k := range thenC() {
+					br[k] = true
+				}
+				for k := range elseC() {
+					br[k] = true
+				}
+			}
+			cur = seq(cur, br)
+		case *ast.BranchStmt:
+			if x.Tok == token.BREAK {
+				return map[int]bool{} // the clause is left on the failure path: nothing recorded counts
+			}
+		case *ast.ReturnStmt:
+			return cur
+		case *ast.ForStmt, *ast.RangeStmt, *ast.SwitchStmt:
+			if mentionsCrawlNode(ce, st) {
+				ce.failed = true
+			}
+		default:
+			cur = seq(cur, exprDelta(st))
+		}
+	}
+	return cur
+}
+
+func mentionsCrawlNode(ce *crawlEval, n ast.Node) bool {
+	found := false
+	ast.Inspect(n, func(x ast.Node) bool {
+		if call, ok := x.(*ast.CallExpr); ok {
+			fn := core.Callee(ce.info, call)
+			if fn == ce.crawl || fn == ce.uncap {
+				found = true
+			}
+		}
+		return true
+	})
+	return found
+}
+
+func mentionsCrawl(ce *crawlEval, fd *ast.FuncDecl, depth int) bool {
+	found := false
+	ast.Inspect(fd.Body, func(x ast.Node) bool {
+		call, ok := x.(*ast.CallExpr)
+		if !ok || found {
+			return !found
+		}
+		fn := core.Callee(ce.info, call)
+		if fn == ce.crawl || fn == ce.uncap {
+			found = true
+		} else if fn != nil && fn.Pkg() != nil && fn.Pkg().Path() == core.PkgRoot && depth < 2 {
+			if d, _ := ce.p.DeclOf(fn); d != nil && d.Body != nil && d != fd && mentionsCrawl(ce, d, depth+1) {
+				found = true
+			}
+		}
+		return true
+	})
+	return found
+}
+
+func RCrawlPair(c *core.Ctx) {
+	c.Rule("R-CRAWLPAIR", "for every opcode whose forward clause records captures on the crawl stack (calls of crawl, through Capture / transferCapture), the |Back clause calls uncapture() exactly as many times, for each combination of the operand tests `operand(k) != -1` the two clauses branch on", 4)
+	m := buildOpModel(c)
+	if !m.ok {
+		c.Anchor("bytecode model")
+		return
+	}
+	p := c.P
+	info := p.Pkg("").TypesInfo
+	ce := &crawlEval{info: info, p: p, crawl: p.LookupFunc("", "Runner.crawl"), uncap: p.LookupFunc("", "Runner.uncapture"), opnd: p.LookupFunc("", "Runner.operand")}
+	if ce.crawl == nil || ce.uncap == nil || ce.opnd == nil {
+		c.Anchor("Runner.crawl / Runner.uncapture / Runner.operand")
+		return
+	}
+	fwd := map[int64]*clause{}
+	back := map[int64]*clause{}
+	for _, cl := range m.clauses {
+		for _, lab := range cl.labels {
+			if !lab.back && !lab.back2 {
+				fwd[lab.op] = cl
+			} else if lab.back {
+				back[lab.op] = cl
+			}
+		}
+	}
+	n := 0
+	var ops []int64
+	for op := range fwd {
+		ops = append(ops, op)
+	}
+	sort.Slice(ops, func(i, j int) bool { return ops[i] < ops[j] })
+	for _, op := range ops {
+		cl := fwd[op]
+		records := false
+		ce.bind = map[types.Object]string{}
+		for _, st := range cl.cc.Body {
+			ast.Inspect(st, func(x ast.Node) bool {
+				if call, ok := x.(*ast.CallExpr); ok {
+					fn := core.Callee(info, call)
+					if fn == ce.crawl {
+						records = true
+					} else if fn != nil && fn != ce.uncap && fn.Pkg() != nil && fn.Pkg().Path() == core.PkgRoot {
+						if d, _ := p.DeclOf(fn); d != nil && d.Body != nil && mentionsCrawlPush(ce, d, 0) {
+							records = true
+						}
+					}
+				}
+				return true
+			})
+		}
+		if !records {
+			continue
+		}
+		name := m.opName[op]
+		c.Visit("regexp2.executeDefault")
+		bcl := back[op]
+		if bcl == nil {
+			n++
+			c.Bad(fmt.Sprintf("executeDefault / %s records captures and has a |Back clause that removes them", name), cl.cc.Pos(), "no |Back clause")
+			continue
+		}
+		for _, a := range []bool{false, true} {
+			for _, b := range []bool{false, true} {
+				n++
+				ce.env = map[string]bool{"operand(0)": a, "operand(1)": b}
+				ce.failed = false
+				ce.bind = map[types.Object]string{}
+				f := ce.counts(cl.cc.Body, 0)
+				ce.bind = map[types.Object]string{}
+				bk := ce.counts(bcl.cc.Body, 0)
+				key := fmt.Sprintf("executeDefault / %s under operand(0)!=-1:%v operand(1)!=-1:%v records as many crawl entries as %s|Back removes", name, a, b, name)
+				if ce.failed || len(f) != 1 || len(bk) != 1 {
+					if len(f) == 0 {
+						// no successful forward path under this combination (e.g. a balancing group needs operand(1)): nothing to pair
+						c.OK(key, cl.cc.Pos(), "no forward path records anything under this combination")
+						continue
+					}
+					c.Unknown(key, cl.cc.Pos(), "the clauses could not be evaluated to one count each (forward %v, back %v)", intKeysOf(f), intKeysOf(bk))
+					continue
+				}
+				var fv, bv int
+				for k := range f {
+					fv = k
+				}
+				for k := range bk {
+					bv = k
+				}
+				c.Check(fv+bv == 0, key, bcl.cc.Pos(), "the forward clause records %d crawl entr(y/ies), the Back clause removes %d: backtracking through this instruction leaves the capture bookkeeping one off (index out of range on the crawl stack, or a capture of another group undone)", fv, -bv)
+			}
+		}
+	}
+	if n == 0 {
+		c.Anchor("interpreter clauses that record captures")
+	}
+}
+
+func mentionsCrawlPush(ce *crawlEval, fd *ast.FuncDecl, depth int) bool {
+	found := false
+	ast.Inspect(fd.Body, func(x ast.Node) bool {
+		call, ok := x.(*ast.CallExpr)
+		if !ok || found {
+			return !found
+		}
+		fn := core.Callee(ce.info, call)
+		if fn == ce.crawl {
+			found = true
+		} else if fn != nil && fn != ce.uncap && fn.Pkg() != nil && fn.Pkg().Path() == core.PkgRoot && depth < 2 {
+			if d, _ := ce.p.DeclOf(fn); d != nil && d.Body != nil && d != fd && mentionsCrawlPush(ce, d, depth+1) {
+				found = true
+			}
+		}
+		return true
+	})
+	return found
+}
+
+func intKeysOf(m map[int]bool) []int {
+	var out []int
+	for k := range m {
+		out = append(out, k)
+	}
+	sort.Ints(out)
+	return out
+}
